@@ -189,5 +189,17 @@ Definition report_field_ok (printed extracted : list (string * string)) (f : rfi
 Definition report_ok (sch : list rfield) (printed extracted : list (string * string)) : bool :=
   forallb (report_field_ok printed extracted) sch.
 
+(* string parameters: the schema publishes type "string" without further constraint; the reader stores the text verbatim
+   (blanks, digits, unit-looking suffixes included - strParameter never goes to ConvertUnits) *)
+Definition read_string (p : param) (s : string) : option string :=
+  match p_kind p with KStr => Some s | _ => None end.
+Definition schema_allows_string (e : sentry) (s : string) : bool := String.eqb (s_type e) "string".
+(* supplied text, what the implementation holds afterwards (None: it raised) *)
+Definition scase : Type := (nat * string * option string)%type.
+Definition ostr_eqb (a b : option string) : bool :=
+  match a, b with Some x, Some y => String.eqb x y | None, None => true | _, _ => false end.
+Definition scase_ok (t : list param) (c : scase) : bool :=
+  match c with (i, s, held) => ostr_eqb (read_string (nth i t dummy_param) s) held && ostr_eqb held (Some s) end.
+
 (* ---- harness entry points: (number of items, indices on which the check is false) ---- *)
 Definition bad {A : Type} (f : A -> bool) (l : list A) : nat * list nat := (List.length l, mismatches f 0 l).
